@@ -23,7 +23,7 @@ RULE = (
     "distinct by operation sequence."
 )
 ASSUMPTIONS = ["sampler classes are identified by their class name, as the library does"]
-REQUIRED_COUNTERS = {"failed_batches_then_continued": 10, "rl_scheduler_cases": 5, "moved_checkpoints": 10, "folder_reused_by_other_run": 20, "tables_checked": 80, "rows_attributed": 150, "helper_calls": 40, "restores": 40, "dropped_class_checkpoints": 10,
+REQUIRED_COUNTERS = {"folder_holds_no_batch_checkpoint_of_another_lineup": 8, "failed_batches_then_continued": 10, "rl_scheduler_cases": 5, "moved_checkpoints": 10, "folder_reused_by_other_run": 20, "tables_checked": 80, "rows_attributed": 150, "helper_calls": 40, "restores": 40, "dropped_class_checkpoints": 10,
                      "user_defined_classes": 5, "set_scheduler_ops": 5, "old_format_fixture": 1}
 SHARDS = {"quick": 16, "thorough": 16}
 SHARD_WATCHDOG = {"quick": 1500, "thorough": 10800}
@@ -81,6 +81,20 @@ def run_case(desc, ctx):
     model = CG.model_for(cfg)
     ops = []
     wit = {"initial_lineup": [d["kind"] for d in cfg["lineup"]], "scheduler": cfg["scheduler"], "ops": ops}
+    if not rl and desc["i"] % 4 == 1:
+        # the folder already holds a checkpoint written BEFORE ANY BATCH by a calibrator with another line-up (its stored history is
+        # empty, hence a prefix of anything), or one batch of a run that shares this run's seed and first sampler: whatever the
+        # calibrator writes there afterwards must describe this run's classes, not the earlier table
+        try:
+            order = [k_ for k_ in G.HISTORY_FREE]
+            other_cfg = dict(cfg, lineup=[G.gen_sampler_desc(rng, k_, batch_size=1) for k_ in [order[j] for j in rng.permutation(len(order))][: int(rng.integers(2, 4))]], scheduler="list")
+            with quiet():
+                pre_cal = CG.build_calibrator(other_cfg, folder=str(folder))
+                pre_cal.create_checkpoint(str(folder))
+            cnt("folder_holds_no_batch_checkpoint_of_another_lineup")
+            wit["folder_held_no_batch_checkpoint_of_lineup"] = [d_["kind"] for d_ in other_cfg["lineup"]]
+        except Exception:  # noqa: BLE001
+            pass
     with quiet():
         cal = CG.build_calibrator(cfg, folder=None if rl else str(folder))
 
